@@ -2,6 +2,8 @@ from core import Unit as U
 HASH = ["secp256k1_sha256_write", "secp256k1_sha256_finalize"]
 CTXDEF = ["USE_EXTERNAL_DEFAULT_CALLBACKS"]
 SELFTEST = ["--replace-calls", "secp256k1_selftest_sha256:verif_selftest_stub"]
+GATE_STUB = [["--replace-calls", "secp256k1_ecmult_gen:gate_stub_ecmult_gen", "--replace-calls", "nonce_function_rfc6979_impl:gate_stub_rfc6979"]]
+GATE_LEAVES = HASH + ["secp256k1_ecmult", "secp256k1_ecmult_const", "secp256k1_ge_set_gej", "secp256k1_ge_set_gej_var", "secp256k1_scalar_inverse", "secp256k1_scalar_inverse_var", "secp256k1_scalar_mul"]
 ORV = ["secp256k1_scalar_inverse_var", "secp256k1_scalar_mul", "secp256k1_ecmult", "secp256k1_gej_eq_x_var"]
 def CX(name, entry, functions, **kw):
     kw.setdefault("timeout", 600); kw.setdefault("unwind", 70); kw.setdefault("min_obl", 5)
@@ -21,13 +23,13 @@ UNITS = [
        extra_instrument=[SELFTEST], assumed=["secp256k1_selftest_sha256"],
        note="self test replaced by a stub with arbitrary verdict for a user candidate (DFCC havocs the non-const static pointer the real one reads through)"),
     # (ii) static-context gates: all 19 entry points that need ecmult_gen
-    U("C20.gate_core", ["C20"], "harness/C20/gates.c", "h_gate_core", unwind=70, timeout=600, min_obl=20,
+    U("C20.gate_core", ["C20"], "harness/C20/gates.c", "h_gate_core", replace=GATE_LEAVES, extra_instrument=GATE_STUB, unwind=70, timeout=600, min_obl=20,
       functions=["secp256k1_ec_pubkey_create", "secp256k1_ecdsa_sign", "secp256k1_ecdsa_sign_recoverable", "secp256k1_keypair_create", "secp256k1_schnorrsig_sign32", "secp256k1_schnorrsig_sign_custom", "secp256k1_ellswift_create"]),
-    U("C20.gate_musig", ["C20"], "harness/C20/gates.c", "h_gate_musig", unwind=200, timeout=600, min_obl=10,
+    U("C20.gate_musig", ["C20"], "harness/C20/gates.c", "h_gate_musig", replace=GATE_LEAVES, extra_instrument=GATE_STUB, unwind=200, timeout=600, min_obl=10,
       functions=["secp256k1_musig_nonce_gen", "secp256k1_musig_nonce_gen_counter"]),
-    U("C20.gate_zkp1", ["C20"], "harness/C20/gates.c", "h_gate_zkp1", unwind=200, timeout=600, min_obl=15,
+    U("C20.gate_zkp1", ["C20"], "harness/C20/gates.c", "h_gate_zkp1", replace=GATE_LEAVES, extra_instrument=GATE_STUB, unwind=70, timeout=600, min_obl=15,
       functions=["secp256k1_ecdsa_s2c_sign", "secp256k1_ecdsa_anti_exfil_signer_commit", "secp256k1_ecdsa_adaptor_encrypt", "secp256k1_ecdsa_adaptor_recover", "secp256k1_generator_generate_blinded", "secp256k1_pedersen_commit"]),
-    U("C20.gate_zkp2", ["C20"], "harness/C20/gates.c", "h_gate_zkp2", unwind=70, timeout=600, min_obl=15,
+    U("C20.gate_zkp2", ["C20"], "harness/C20/gates.c", "h_gate_zkp2", replace=GATE_LEAVES, extra_instrument=GATE_STUB, unwind=70, timeout=600, min_obl=15,
       functions=["secp256k1_rangeproof_sign", "secp256k1_rangeproof_rewind", "secp256k1_surjectionproof_generate", "secp256k1_whitelist_sign", "secp256k1_schnorrsig_aggverify"]),
     # (iii) results under arbitrary initial static state
     U("C20.static_state_compact", ["C20"], "harness/C20/state.c", "h_static_state_compact", unwind=70, timeout=300, min_obl=3, replay=True,
@@ -42,4 +44,8 @@ UNITS = [
       functions=["secp256k1_ec_pubkey_serialize"]),
     U("C20.frame_schnorrsig_verify", ["C20"], "harness/C20/frames.c", "h_frame_schnorrsig_verify", unwind=70, timeout=900, min_obl=20, slice_formula=True,
       replace=HASH + ["secp256k1_ecmult", "secp256k1_ge_set_gej_var"], assumed=["secp256k1_ecmult", "secp256k1_ge_set_gej_var"], functions=["secp256k1_schnorrsig_verify"]),
+    # results under arbitrary static state: tagged hash (seeded defect C20-1)
+    U("C20.tagged_sha256", ["C20"], "harness/C20/tagged.c", "h_tagged_sha256", unwind=70, timeout=600, min_obl=10, replace=HASH,
+      functions=["secp256k1_tagged_sha256", "secp256k1_sha256_initialize_tagged", "secp256k1_sha256_initialize"],
+      note="hash stream contracts (C05) replace write/finalize; statics arbitrary at entry: no part of the stream can come from an earlier call; tag and message lengths <= 10000"),
 ]
